@@ -922,6 +922,35 @@ def _local_ser(w: cw.World, uid: str, ser: int) -> int:
 
 
 # ----------------------------------------------------------------------------------------- D: _timer under a set stopper
+def run_timer_case(c: dict) -> tuple | None:
+    """One row of the timer table on the real _runner/_timer: set the stopper at the given program point."""
+    h = {'id': 't', 'kind': 'timer', 'interval': c['interval'], 'idle': c['idle'], 'sharp': c['sharp'], 'dur': 500,
+         'fail': c['point'] == 'run-fail'}
+    w = cw.World([h], with_killer=False)
+    try:
+        with vloop.running(w.loop), cw.quiet():
+            w.act({'op': 'create', 'uid': 'u0', 'match': ['t']})
+            first_run = 1000 if c['idle'] else 0
+            if c['point'].startswith('run'):
+                w.run_to(first_run + 250)
+            else:
+                w.run_to(first_run + 500 + 250)          # asleep after the first run (or exited, for one-shots)
+            inst = w.instances.get(0)
+            if inst is None:
+                raise cw.ObservationPointMissing('timer instance not spawned')
+            if inst['ended'] is not None:
+                return None                               # one-shot timer already over: nothing to stop
+            if c['point'] == 'run-reset':
+                inst['memory'].idle_reset_time = w.loop.time()
+            before = w.sleeps
+            from kopf._core.intents import stoppers
+            inst['stopper'].set(reason=stoppers.DaemonStoppingReason.OPERATOR_EXITING)
+            w.run_to(w.now() + 3000)
+            return bool(w.stalls), w.sleeps - before, inst['ended'] is not None, list(w.stalls), h
+    finally:
+        w.close()
+
+
 def d_timer(ctx: fw.Ctx) -> list[fw.Case]:
     cases = []
     pts = []
@@ -931,35 +960,10 @@ def d_timer(ctx: fw.Ctx) -> list[fw.Case]:
                 for point in ('run', 'run-reset', 'run-fail', 'sleep'):
                     pts.append({'interval': interval, 'idle': idle, 'sharp': sharp, 'point': point})
     for c in pts:
-        h = {'id': 't', 'kind': 'timer', 'interval': c['interval'], 'idle': c['idle'], 'sharp': c['sharp'], 'dur': 500,
-             'fail': c['point'] == 'run-fail'}
-        w = cw.World([h], with_killer=False)
-        try:
-            with vloop.running(w.loop), cw.quiet():
-                w.act({'op': 'create', 'uid': 'u0', 'match': ['t']})
-                first_run = 1000 if c['idle'] else 0
-                inst = None
-                if c['point'].startswith('run'):
-                    w.run_to(first_run + 250)
-                else:
-                    w.run_to(first_run + 500 + 250)          # asleep after the first run (or exited, for one-shots)
-                inst = w.instances.get(0)
-                if inst is None:
-                    raise cw.ObservationPointMissing('timer instance not spawned')
-                if inst['ended'] is not None:
-                    continue                                  # one-shot timer already over: nothing to stop
-                if c['point'] == 'run-reset':
-                    inst['memory'].idle_reset_time = w.loop.time()
-                started_reset = inst['memory'].idle_reset_time
-                before = w.sleeps
-                from kopf._core.intents import stoppers
-                inst['stopper'].set(reason=stoppers.DaemonStoppingReason.OPERATOR_EXITING)
-                w.run_to(w.now() + 3000)
-                stalled = bool(w.stalls)
-                n = w.sleeps - before
-                ended = inst['ended'] is not None
-        finally:
-            w.close()
+        res = run_timer_case(c)
+        if res is None:
+            continue
+        stalled, n, ended, stalls, h = res
         if c['point'] == 'sleep':
             # where the coroutine sleeps after a successful run: interval sleep (TTop after wake-up) or the idle-only loop
             p = 'TIdleOnly' if (c['interval'] is None and c['idle'] is not None) else 'TTop'
@@ -977,7 +981,7 @@ def d_timer(ctx: fw.Ctx) -> list[fw.Case]:
         cases.append(fw.Case(term, {**c, 'stalled': stalled, 'sleeps_after_stop': None if stalled else n, 'ended': ended}, diag=call))
         ctx.count('timer_tail', 'stall' if stalled else 'exit')
         data = {'table': 'timer', 'handler': {k: h[k] for k in ('kind', 'interval', 'idle', 'sharp')}, 'point': c['point']}
-        for s in w.stalls:
+        for s in stalls:
             ctx.fail('a coroutine of the operator spins without yielding to the event loop (the whole operator is blocked)',
                      {**data, 'stall': s}, observed=s, sig='stall')
         if not stalled and not ended:
@@ -1085,6 +1089,14 @@ def replay(ctx: fw.Ctx, body: dict) -> bool:
         print('stage case now gives:', {k: r[k] for k in ('acts', 'delays', 'cancel', 'done')})
         sub = fw.Ctx(ctx.prop, ctx.tier, ctx.seed)
         return _restage(sub, case)
+    if case.get('table') == 'timer':
+        c = {**case['handler'], 'point': case['point']}
+        with cw.wall_backstop(120):
+            res = run_timer_case(c)
+        if res is None:
+            return False
+        print('timer case now gives:', {'stalled': res[0], 'sleeps_after_stop': res[1], 'ended': res[2]})
+        return bool(res[0] or not res[2])
     if case.get('table') == 'linear':
         rig = Rig()
         with vloop.running(rig.loop), cw.quiet():
